@@ -23,7 +23,7 @@ RULE = ("n = 1..12, ASYMMETRIC non-negative flow / distance matrices: random "
         "non-trivial = distinct (F, D, p) with n >= 3 and F, D both "
         "non-symmetric")
 LEVEL_ASSUMPTIONS = ["oracle: Python big-int double sum"]
-REQUIRED = {"tag[almost-symmetric]": 20, "evaluations": 3000, "dtype_edge_instances": 100,
+REQUIRED = {"size_window_instances": 10, "tag[almost-symmetric]": 20, "evaluations": 3000, "dtype_edge_instances": 100,
             "value_equals_upper_bound": 50, "text_instances": 100,
             "instances_all_perms": 30}
 
@@ -176,10 +176,12 @@ def judge_instance(ctx, inst, F, D, case, tag, all_perms):
             perms.append([int(v) for v in rng.permutation(n)])
         if tag == "edge":
             # a permutation that maps the big flow onto the big distance
+            mf = max(max(r) for r in F)
+            md = max(max(r) for r in D)
             fi = [(i, j) for i in range(n) for j in range(n)
-                  if F[i][j] == max(max(r) for r in F)][0]
+                  if F[i][j] == mf][0]
             di = [(i, j) for i in range(n) for j in range(n)
-                  if D[i][j] == max(max(r) for r in D)][0]
+                  if D[i][j] == md][0]
             if (fi[0] == fi[1]) == (di[0] == di[1]):
                 p = [None] * n
                 p[fi[0]] = di[0]
@@ -262,6 +264,10 @@ def run_shard(ctx, args):
     rng = ctx.rng
     for it in range(args["n"]):
         n = int(rng.choice([1, 2, 2, 3, 3, 4, 4, 5, 6, 7, 9, 12]))
+        if it % 40 == 11:
+            # facility counts around 2^6, 2^7, 2^8
+            n = int(rng.choice([63, 64, 65, 127, 128, 129, 255, 256, 257]))
+            ctx.count("size_window_instances")
         F, D, tag = gen(rng, n)
         lb_o, ub_o = trivial(F, D)
         if ub_o >= 10 ** 15:
